@@ -16,7 +16,7 @@ func init() {
 		id: "C17",
 		li: levelInfo{
 			Level:       "other",
-			Explanation: "Static rules on the hot-restart control channel. R1 (table agreement): for every case of the request switch the handler performs exactly the Instance step that belongs to that request constant and then sends the reply whose message-type constant is the request's sibling; the default arm sends the unknown reply; the terminate handler acknowledges before signalling. R2: one loop iteration = one frame read, at most one handler call, executed synchronously (no goroutine), so steps are performed and acknowledged in request order. R3 (bit-level): the length written into header bytes 1-2 and the length the reader composes from them are inverse for all 2^16 values (GF(2)-affine interpretation); type at byte 0, payload from byte 3. R4 (zone domain): the payload slice [3 : 3+Len] has witnesses 3+Len <= bytes read (no garbage accepted) and <= buffer size (no crash). R5: child-side call order: shutdown parent admin, start admin, drain parent listeners, (delayed) terminate parent. R6: draining reaches only StopListen of each processor and acts on a listener that is not bound yet too. Kernel datagram semantics are not decided. R7: concrete-type tests on the frame reader's error can succeed (the reader passes the socket error through unchanged), so a departed child is recognised. R8: every step invoked on the Instance interface resolves to a declared method, not to a promotion wrapper that re-enters the same interface call. R1 also recovers a handler table indexed by the message type and proves its index with E-bounds. R9: no error return of the frame reader depends on the type byte. The frame layout may live in encode/decode helpers (the byte count is the length of the parameter that receives b[:n]); the dispatch may be a map keyed by the message type read with the comma-ok form. R10 (shared with C09.R11): the drain latch is read by binding/accepting code only. R1 recognises reply helpers and steps handed over as method values. R1 also requires the termination signal on every path of the terminate handler; R6 requires the drain loop to be left only when exhausted. R4 also: the short-read guard accepts a datagram of exactly the header size (a frame with declared length 0).",
+			Explanation: "Static rules on the hot-restart control channel. R1 (table agreement): for every case of the request switch the handler performs exactly the Instance step that belongs to that request constant and then sends the reply whose message-type constant is the request's sibling; the default arm sends the unknown reply; the terminate handler acknowledges before signalling. R2: one loop iteration = one frame read, at most one handler call, executed synchronously (no goroutine), so steps are performed and acknowledged in request order. R3 (bit-level): the length written into header bytes 1-2 and the length the reader composes from them are inverse for all 2^16 values (GF(2)-affine interpretation); type at byte 0, payload from byte 3. R4 (zone domain): the payload slice [3 : 3+Len] has witnesses 3+Len <= bytes read (no garbage accepted) and <= buffer size (no crash). R5: child-side call order: shutdown parent admin, start admin, drain parent listeners, (delayed) terminate parent. R6: draining reaches only StopListen of each processor and acts on a listener that is not bound yet too. Kernel datagram semantics are not decided. R7: concrete-type tests on the frame reader's error can succeed (the reader passes the socket error through unchanged), so a departed child is recognised. R8: every step invoked on the Instance interface resolves to a declared method, not to a promotion wrapper that re-enters the same interface call. R1 also recovers a handler table indexed by the message type and proves its index with E-bounds. R9: no error return of the frame reader depends on the type byte. The frame layout may live in encode/decode helpers (the byte count is the length of the parameter that receives b[:n]); the dispatch may be a map keyed by the message type read with the comma-ok form. R10 (shared with C09.R11): the drain latch is read by binding/accepting code only. R1 recognises reply helpers and steps handed over as method values. R1 also requires the termination signal on every path of the terminate handler; R6 requires the drain loop to be left only when exhausted. R4 also: the short-read guard accepts a datagram of exactly the header size (a frame with declared length 0). R4 also: the payload slice is exactly the declared length. R11: the handler called by the dispatch is not carried across iterations of the read loop.",
 			TrustedBase: []string{"go/ssa", "samlint ebits.go, ebounds.go, zone.go"},
 		},
 		run: checkC17,
